@@ -174,18 +174,20 @@ func (n *Node) start() error {
 			return err
 		}
 		n.conn = conn
-		n.repl = replication.NewManager(e, n.queue, conn, replication.Config{
-			ReconcileInterval: time.Duration(c.ReconcileMs) * time.Millisecond,
-			Workers: replication.WorkerConfig{
-				PollInterval:        time.Duration(c.PollMs) * time.Millisecond,
-				LeaseInterval:       time.Duration(c.LeaseMs) * time.Millisecond,
-				LogRPCTimeout:       time.Duration(c.LogTimeoutMs) * time.Millisecond,
-				SnapshotRPCTimeout:  time.Hour,
-				MaxRecoveryInFlight: 1,
-			},
-		})
-		if err := n.repl.Start(); err != nil {
-			return fmt.Errorf("replication start: %w", err)
+		if !w.noReplication {
+			n.repl = replication.NewManager(e, n.queue, conn, replication.Config{
+				ReconcileInterval: time.Duration(c.ReconcileMs) * time.Millisecond,
+				Workers: replication.WorkerConfig{
+					PollInterval:        time.Duration(c.PollMs) * time.Millisecond,
+					LeaseInterval:       time.Duration(c.LeaseMs) * time.Millisecond,
+					LogRPCTimeout:       time.Duration(c.LogTimeoutMs) * time.Millisecond,
+					SnapshotRPCTimeout:  time.Hour,
+					MaxRecoveryInFlight: 1,
+				},
+			})
+			if err := n.repl.Start(); err != nil {
+				return fmt.Errorf("replication start: %w", err)
+			}
 		}
 		regattapb.RegisterKVServer(n.srv, regattaserver.NewForwardingKVServer(e, regattapb.NewKVClient(conn), n.queue))
 		regattapb.RegisterClusterServer(n.srv, &regattaserver.ClusterServer{Cluster: e, Config: func() map[string]any { return nil }})
